@@ -14,6 +14,17 @@ var impls = map[string]func(string) string{
 	"chunk.all":      implChunkAll,
 	"chunk.buffered": implChunkBuffered,
 	"chunk.disc":     implChunkDisc,
+	"fmt.next":       implFmtNext,
+	"hash":           implHash,
+	"verify.index":   implVerifyIndex,
+	"arch.untar":     implUntar,
+	"arch.tar":       implTar,
+	"proto.read":     implProtoRead,
+	"bst":            implBst,
+	"mode.s2f":       implMode,
+	"mode.f2s":       implMode,
+	"mode.mkdev":     implMode,
+	"mode.rdev":      implMode,
 }
 
 type replayFile struct {
